@@ -39,6 +39,7 @@ type Contract struct {
 	Requires    []*Clause
 	Ensures     []*Clause
 	Exits       []*Clause // must hold at every exit, normal or panicking
+	Entry       []*Clause // assumed when verified as a thread root; not checked at go sites
 	Sets        []*SetClause
 	Panics      string    // "false" | "any" | "when"
 	PanicsWhen  *Clause
@@ -252,7 +253,7 @@ func parseSpecExpr(text string) (ast.Expr, error) {
 }
 
 var clauseKw = map[string]bool{"requires": true, "ensures": true, "panics": true, "modifies": true, "inline": true, "trusted": true, "tags": true,
-	"safety": true, "invariant": true, "exit": true, "shapes": true, "thread": true, "params": true, "results": true, "sets": true}
+	"safety": true, "invariant": true, "exit": true, "entry": true, "shapes": true, "thread": true, "params": true, "results": true, "sets": true}
 
 func (db *ContractDB) loadFile(path, pkg string) error {
 	b, err := os.ReadFile(path)
@@ -384,7 +385,7 @@ func (db *ContractDB) loadFile(path, pkg string) error {
 				rest = strings.TrimSpace(rest[j+1:])
 			}
 			switch w {
-			case "requires", "ensures", "invariant", "exit":
+			case "requires", "ensures", "invariant", "exit", "entry":
 				ex, err := parseSpecExpr(rest)
 				if err != nil {
 					return fmt.Errorf("%s: %s: %v", path, cur.Name, err)
@@ -397,6 +398,8 @@ func (db *ContractDB) loadFile(path, pkg string) error {
 					cur.Ensures = append(cur.Ensures, c)
 				case "exit":
 					cur.Exits = append(cur.Exits, c)
+				case "entry":
+					cur.Entry = append(cur.Entry, c)
 				case "invariant":
 					if curLoop == nil {
 						return fmt.Errorf("%s: invariant outside loop in %s", path, cur.Name)
@@ -1337,6 +1340,32 @@ func (c *SpecCtx) evalCall(x *ast.CallExpr) (Val, types.Type) {
 		v, _ := c.eval(x.Args[0])
 		return IfRef(v.(*Term)), tInt
 	case "unchanged":
+		if lit, isLit := x.Args[0].(*ast.BasicLit); isLit && lit.Kind == token.STRING {
+			// unchanged("heap designator"): objects that existed before keep their contents
+			if c.old == nil {
+				panic(sperr("unchanged() needs a post-state"))
+			}
+			d, _ := strconv.Unquote(lit.Value)
+			hm := map[string]Sort{}
+			c.e.addNamedHeap(d, &SpecCtx{e: c.e, pkg: c.pkg}, hm)
+			var names []string
+			for k := range hm {
+				names = append(names, k)
+			}
+			sortStrings(names)
+			var cs []*Term
+			for _, h := range names {
+				srt := hm[h]
+				y := BoundVar("y", SInt)
+				oldH := c.old.heap(h, srt)
+				if c.oldHeaps != nil {
+					oldH = c.oldHeaps(h, srt)
+				}
+				cur := c.heaps(h, srt)
+				cs = append(cs, Forall([]*Term{y}, Implies(Allocd(c.old.alloc, y), Eq(Select(cur, y), Select(oldH, y))), []*Term{Select(cur, y)}))
+			}
+			return And(cs...), tBool
+		}
 		// unchanged(G_name): the ghost keeps its value on everything that existed before
 		id, ok := x.Args[0].(*ast.Ident)
 		if !ok || !strings.HasPrefix(id.Name, "G_") || c.old == nil {
@@ -1357,6 +1386,11 @@ func (c *SpecCtx) evalCall(x *ast.CallExpr) (Val, types.Type) {
 		v, _ := c.eval(x.Args[0])
 		declFun("errstr", SStr, SIface)
 		return App("errstr", SStr, c.e.term(v)), tString
+	case "equalfold":
+		a, _ := c.eval(x.Args[0])
+		b, _ := c.eval(x.Args[1])
+		declFun("|u!strings.EqualFold|", SBool, SStr, SStr)
+		return App("|u!strings.EqualFold|", SBool, c.e.term(a), c.e.term(b)), tBool
 	case "strcontains":
 		a, _ := c.eval(x.Args[0])
 		b, _ := c.eval(x.Args[1])
